@@ -53,10 +53,11 @@ def mod_of(con, arr):
 
 
 class LoopC:
-    def __init__(self, inv=None, decreases=None, var_types=None, axioms=None, ghost=None, arrays=(), fields=(), stop=None):
+    def __init__(self, inv=None, decreases=None, var_types=None, axioms=None, ghost=None, arrays=(), fields=(), stop=None, stop_unchanged=True):
         # stop: (s0, s, v) -> {name: Bool}.  The verified region of the function ends where this loop begins: the clauses are proved
         # there and the path ends; nothing after that point is verified (recorded as an assumption in the evidence)
         self.stop = stop
+        self.stop_unchanged = stop_unchanged    # True: nothing pre-existing written before the region ends; False: the contract's modifies clauses apply
         self.arrays = tuple(arrays)     # heap arrays known to be written in the loop (saves the learning restarts)
         self.fields = tuple(fields)     # (local variable holding a PObj, field name) known to be written in the loop
         self.ghost = ghost or {}        # name -> (s, v): term evaluated at loop entry (before the havoc), visible to inv as v.<name>
